@@ -36,6 +36,10 @@ def handleOp (o : Op) : String :=
     match dhOf o "oracle.dh1", dhOf o "oracle.dh2" with
     | some d1, some d2 => s!"{toHex (precompute d1)} {toHex (precompute d2)}"
     | _, _ => "bad-op"
+  | "precompa" =>   -- Precompute with sharedKey aliasing one of its inputs: a function of the contents at call time
+    match dhOf o "oracle.dh" with
+    | some d => toHex (precompute d)
+    | none => "bad-op"
   | "bxseal" =>
     match o.hex? "nonce", o.hex? "msg", dhOf o "oracle.dh" with
     | some nonce, some msg, some dh =>
